@@ -8,6 +8,8 @@ resolution).
 -/
 import InToto.Proofs.PipeThresholds
 import InToto.Proofs.Pipeline
+import InToto.Generated.Facts
+import InToto.Model.StageOrder
 
 namespace InToto.C05
 open InToto InToto.Verify InToto.PipeProofs InToto.PipelineProofs InToto.Json InToto.Schema InToto.Metadata
@@ -70,5 +72,12 @@ theorem rules_see_the_agreed_link (res : List (Step × List (Str × LinkView))) 
     (h : reduceAll res = .ok red) (hn : (res.map fun sl => sl.1.name).Nodup) :
     ∀ sl ∈ res, ∃ lv, reduceStep sl.2 = .ok lv ∧ lookup sl.1.name red = some lv :=
   reduceAll_lookup res red h hn
+
+/-- REGENERATED FACT (stage order): in both entry points the counted links are reduced
+    (`ReduceStepsMetadata`, unconditionally) after the thresholds and the sublayouts and before any
+    artifact rule is evaluated and before the summary is made -/
+theorem facts_reduce_before_rules :
+    (StageOrder.beforeAll Generated.stagesInTotoVerify "ReduceStepsMetadata" ["VerifyArtifacts", "GetSummaryLink"] && StageOrder.before Generated.stagesInTotoVerify "VerifyLinkSignatureThesholds" "ReduceStepsMetadata" && StageOrder.before Generated.stagesInTotoVerify "VerifySublayouts" "ReduceStepsMetadata") = true ∧
+    (StageOrder.beforeAll Generated.stagesInTotoVerifyWithDirectory "ReduceStepsMetadata" ["VerifyArtifacts", "GetSummaryLink"] && StageOrder.before Generated.stagesInTotoVerifyWithDirectory "VerifyLinkSignatureThesholds" "ReduceStepsMetadata" && StageOrder.before Generated.stagesInTotoVerifyWithDirectory "VerifySublayouts" "ReduceStepsMetadata") = true := by decide
 
 end InToto.C05
